@@ -4,4 +4,9 @@ go 1.19
 
 require github.com/SAP/go-dblib v0.0.0
 
+require (
+	github.com/hashicorp/errwrap v1.0.0 // indirect
+	github.com/hashicorp/go-multierror v1.1.1 // indirect
+)
+
 replace github.com/SAP/go-dblib => /repo
